@@ -22,15 +22,15 @@ def _eng(name, quick, thorough, builds, **kw):
 
 ENGINES = {
     # all histories of the core API over 3 objects with 2 traced fields
-    'core': _eng('core', dict(MaxOps=6), dict(MaxOps=7), {'quick': ['all-dev'], 'thorough': ['all-dev', 'all-rel', 'default-dev', 'noauto-rel']}),
+    'core': _eng('core', dict(MaxOps=5), dict(MaxOps=7), {'quick': ['all-dev'], 'thorough': ['all-dev', 'all-rel', 'default-dev', 'noauto-rel']}),
     # an untraced (pinning) field next to a traced one
     'pin': _eng('pin', dict(NS=1, NP=1, MaxOps=5), dict(MaxOps=7), {'quick': ['all-dev'], 'thorough': ['all-dev', 'all-rel']}),
     # finalization disabled
     'nofin': _eng('nofin', dict(FIN=False, MaxOps=5, OPS=CORE_OPS - {"fagain"}), dict(MaxOps=7), {'quick': ['nofin-rel'], 'thorough': ['nofin-dev', 'nofin-rel']}),
     # one injected panic at every callback invocation (trace k-th, finalize, drop)
-    'fault': _eng('fault', dict(MaxOps=6, MaxFaults=1, MaxTraceK=3, N=3), dict(MaxOps=7), {'quick': ['all-dev'], 'thorough': ['all-dev', 'all-rel']}),
+    'fault': _eng('fault', dict(MaxOps=5, MaxFaults=1, MaxTraceK=3, N=3), dict(MaxOps=7), {'quick': ['all-dev'], 'thorough': ['all-dev', 'all-rel']}),
     # weak pointers: downgrade / upgrade / Weak clone / Weak drop / weak fields, upgrades from finalizers and destructors
-    'weak': _eng('weak', dict(N=2, NS=1, NW=1, MaxOps=7, MaxWRoots=2, OPS={"new", "clone", "drop", "set", "clear", "collect", "unwrap", "downgrade", "upgrade", "upgradef", "clonew", "dropw", "setw", "clearw", "put"}),
+    'weak': _eng('weak', dict(N=2, NS=1, NW=1, MaxOps=6, MaxWRoots=2, OPS={"new", "clone", "drop", "set", "clear", "collect", "unwrap", "downgrade", "upgrade", "upgradef", "clonew", "dropw", "setw", "clearw", "put"}),
                  dict(MaxOps=8), {'quick': ['all-dev'], 'thorough': ['all-dev', 'all-rel', 'nofin-rel']}),
     'weaknofin': _eng('weaknofin', dict(N=2, NS=1, NW=1, FIN=False, MaxOps=6, MaxWRoots=2, MaxFaults=1, MaxTraceK=2, OPS={"new", "clone", "drop", "set", "collect", "unwrap", "downgrade", "upgrade", "upgradef", "dropw", "setw"}),
                  dict(MaxOps=7), {'quick': ['nofin-rel'], 'thorough': ['nofin-dev', 'nofin-rel']}),
